@@ -3,6 +3,7 @@ CONSTANTS
   Keys <- MKeys
   Vals <- MVals
   Lens <- MLens
+  LongLens = {}
   Versions <- MVersions
   Damages <- AllDamages
   Depth = 1
